@@ -518,6 +518,8 @@ pub fn dispatch(op: &str, args: &[&str]) -> Option<Res> {
                 Err(e) => f_err(e),
             }),
             // ------------------------------------------------ rationals
+            "r.to_f32.asis" => Ok(f_apx32(rbig(args, 0)?.to_f32())),
+            "r.to_f64.asis" => Ok(f_apx64(rbig(args, 0)?.to_f64())),
             "r.to_f32" => {
                 let (x, y) = (rbig(args, 0)?, relaxed(args, 0)?);
                 merge(&["rbig", "relaxed"], vec![run1(|| f_apx32(x.to_f32())), run1(|| f_apx32(y.to_f32()))])
@@ -691,10 +693,34 @@ pub fn dispatch(op: &str, args: &[&str]) -> Option<Res> {
                     Err(e) => f_err(e),
                 })
             }
+            "f.inf" => {
+                // f.inf <which> <+|-> : conversions of the infinities (base 10 / base 2 where required)
+                let neg = arg(args, 1)? == "-";
+                let x10 = if neg { FBig::<HalfAway, 10>::NEG_INFINITY } else { FBig::<HalfAway, 10>::INFINITY };
+                let x2 = if neg { FBig::<HalfEven, 2>::NEG_INFINITY } else { FBig::<HalfEven, 2>::INFINITY };
+                let ec = |r: Result<String, ConversionError>| match r {
+                    Ok(v) => v,
+                    Err(e) => f_err(e),
+                };
+                match arg(args, 0)? {
+                    "to_f32" => Ok(f_rnd32(x10.to_f32())),
+                    "to_f64" => Ok(f_rnd64(x10.to_f64())),
+                    "repr.to_f64" => Ok(f_rnd64(x10.repr().to_f64())),
+                    "to_int" => Ok(f_rndint(x10.to_int())),
+                    "try.ibig" => Ok(ec(IBig::try_from(x10).map(|v| f_ibig(&v)))),
+                    "try.ubig" => Ok(ec(UBig::try_from(x10).map(|v| f_ubig(&v)))),
+                    "try.u8" => Ok(ec(u8::try_from(x10).map(|v| f_u("u8", v as u128)))),
+                    "try.i64" => Ok(ec(i64::try_from(x10).map(|v| f_i("i64", v as i128)))),
+                    "to.rbig" => Ok(ec(RBig::try_from(x10).map(|r| format!("{} {}", f_ibig(r.numerator()), f_ubig(r.denominator()))))),
+                    "tryto_f32" => Ok(ec(f32::try_from(x2).map(f_f32))),
+                    "tryto_f64" => Ok(ec(f64::try_from(x2).map(f_f64))),
+                    w => Err(format!("bad-arg which {}", w)),
+                }
+            }
             "f.tryto_f32" => {
                 // TryFrom<FBig<_,2>> for f32: exact or refused
                 let (s, e) = (p_ibig(arg(args, 0)?)?, p_isize(arg(args, 1)?)?);
-                let x = FBig::<Zero, 2>::from_parts(s.clone(), e);
+                let x = FBig::<HalfEven, 2>::from_parts(s.clone(), e);
                 let r = FRepr::<2>::new(s, e);
                 let f = |r: Result<f32, ConversionError>| match r {
                     Ok(v) => f_f32(v),
